@@ -34,7 +34,13 @@ CLAIMS = {
           'text front-end below tokens, macros, comptime: exercised, not modelled', '5/C11', 'Coq encode/decode proofs + differential compile over spellings'),
  'C12': C('Theorems: the decoder is total with a fuel that provably suffices (termination), consumes >= 1 byte per instruction, decode sound (listing names exactly the instructions present), decompile(encode p) = print p, listing round trip parse(print p) = p. decompile_script vs model decompiler on all strings of length <= 2/3, compiler and builder outputs, mutated strings; compile(decompile(b)) = b.' + COMMON,
           'deep nesting: CPython RecursionError (D14)', '5/C12', 'Coq proofs about decode/print/parse + exhaustive short strings + differential'),
- 'C16': C('Theorems: exact result of CHECK_TIMESTAMP / CHECK_EPOCH and _VERIFY forms for all inputs incl. error cases; verdict formula = documented window. Lock builders on the boundary grid by correspondence; D11 (before-lock) refuted form proved.' + COMMON,
+ 'C13': C('Theorems on the REAL BYTES of the builders (Builders.v, tied to tools.py by correspondence): for all keys, signatures, flags, caches, oracles, run_auth_scripts [witness; lock] is True iff the flag is permitted and the oracle verifies the first 64 signature bytes over the flag-selected message (single-sig, both layouts incl. the SHAKE commitment), and = the greedy matching verdict for m-of-n over arbitrary key/signature lists. Script-hash, graftroot, graftap: differential + direct oracle (honest unlocks, every perturbation rejected).' + COMMON,
+          'rejection of foreign keys = verify on another key (oracle); scripthash/graftroot/graftap pairs not yet theorems', '5/C13', 'Coq symbolic execution of the emitted bytecode through run_tape; correspondence of builder bytes and verdicts'),
+ 'C14': C('Theorems: the delegate-key lock (27 instructions) on its real bytes: True iff begin <= t within slack, t < end, the root verifies (D, begin, end, can) and the delegate verifies the sigfields (oracle), for all inputs; certificate pack/unpack round trip for all field values in range (exact log2 needed: counterexample with the +1 estimate proved). Chain lock: differential + direct oracle over chains 1-4 with every perturbation.' + COMMON,
+          'chain lock is not yet a theorem (partial)', '5/C14', 'Coq symbolic execution of the lock bytecode + codec proofs; correspondence'),
+ 'C15': C('Theorems on the real bytes: PTLC claim (any time) and refund (deadline and slack), HTLC sha256 / shake256: True iff (digest matches and receiver signs) or (digest differs, deadline reached within slack, refund key signs); generic OP_IF_ELSE sub-tape execution lemma. htlc2 layouts and tweaked PTLC: differential + direct oracle on deadline boundaries and cross-pairings.' + COMMON,
+          'htlc2 (key committed by hash) and ptlc tweak arithmetic not yet theorems (C17 algebra covers the tweak equation)', '5/C15', 'Coq symbolic execution incl. sub-tapes; correspondence'),
+ 'C16': C('Theorems: exact result of CHECK_TIMESTAMP / CHECK_EPOCH and _VERIFY forms for all inputs incl. error cases; verdict formula = documented window. Lock builders (after / between, plain and verify forms) exact on their real bytes; the before-lock theorem states exactly what it accepts (D11).' + COMMON,
           'clock = configuration value c_now (pinned in the harness)', '5/C16', 'Coq symbolic execution + lia; boundary-grid differential'),
  'C17': C('Theorems over any commutative ring acting on an abelian group: adapter passes its check, decrypts to a valid signature, t recovered, exact sensitivity characterisations, private variant refuted (D15). Instructions and builders tied by correspondence with real Ed25519.' + COMMON,
           'H-grp: scalars/points form a module (premises of the theorems); negative claims are iff-characterisations, not hardness', '5/C17', 'Coq algebra (ring) + correspondence with PyNaCl'),
